@@ -2,6 +2,7 @@ package c12
 
 import (
 	"fmt"
+	"strings"
 
 	ad "github.com/pbenner/autodiff"
 
@@ -135,7 +136,7 @@ func genScalarOperand(name string, t gen.ElemType, r *prng.Rand, divisor bool) *
 type opSpec struct {
 	Name string
 	// Build makes the receiver-bound call and lists its read-only operands
-	Build func(t gen.ElemType, r *prng.Rand) (call func(), ops []*operand, recv string)
+	Build func(t gen.ElemType, r *prng.Rand) (call func(), ops []*operand, recv string, result func() any)
 }
 
 func vecRecv(t gen.ElemType, n int, r *prng.Rand) ad.Vector {
@@ -151,62 +152,62 @@ func matRecv(t gen.ElemType, rows, cols int, r *prng.Rand) ad.Matrix {
 }
 
 func vecBin(name string, div bool, f func(rc ad.Vector, a, b ad.Vector)) opSpec {
-	return opSpec{name, func(t gen.ElemType, r *prng.Rand) (func(), []*operand, string) {
+	return opSpec{name, func(t gen.ElemType, r *prng.Rand) (func(), []*operand, string, func() any) {
 		n := r.Range(1, 6)
 		a, b := genVecOperand("a", t, n, r, false), genVecOperand("b", t, n, r, div)
 		rc := vecRecv(t, n, r)
-		return func() { f(rc, a.Obj.(ad.Vector), b.Obj.(ad.Vector)) }, []*operand{a, b}, typeName(rc)
+		return func() { f(rc, a.Obj.(ad.Vector), b.Obj.(ad.Vector)) }, []*operand{a, b}, typeName(rc), func() any { return rc }
 	}}
 }
 
 func vecSc(name string, div bool, f func(rc ad.Vector, a ad.Vector, b ad.Scalar)) opSpec {
-	return opSpec{name, func(t gen.ElemType, r *prng.Rand) (func(), []*operand, string) {
+	return opSpec{name, func(t gen.ElemType, r *prng.Rand) (func(), []*operand, string, func() any) {
 		n := r.Range(1, 6)
 		a, b := genVecOperand("a", t, n, r, false), genScalarOperand("b", t, r, div)
 		rc := vecRecv(t, n, r)
-		return func() { f(rc, a.Obj.(ad.Vector), b.Obj.(ad.Scalar)) }, []*operand{a, b}, typeName(rc)
+		return func() { f(rc, a.Obj.(ad.Vector), b.Obj.(ad.Scalar)) }, []*operand{a, b}, typeName(rc), func() any { return rc }
 	}}
 }
 
 func matBin(name string, div bool, f func(rc ad.Matrix, a, b ad.Matrix)) opSpec {
-	return opSpec{name, func(t gen.ElemType, r *prng.Rand) (func(), []*operand, string) {
+	return opSpec{name, func(t gen.ElemType, r *prng.Rand) (func(), []*operand, string, func() any) {
 		rows, cols := r.Range(1, 4), r.Range(1, 4)
 		a, b := genMatOperand("a", t, rows, cols, r, false), genMatOperand("b", t, rows, cols, r, div)
 		rc := matRecv(t, rows, cols, r)
-		return func() { f(rc, a.Obj.(ad.Matrix), b.Obj.(ad.Matrix)) }, []*operand{a, b}, typeName(rc)
+		return func() { f(rc, a.Obj.(ad.Matrix), b.Obj.(ad.Matrix)) }, []*operand{a, b}, typeName(rc), func() any { return rc }
 	}}
 }
 
 func matSc(name string, div bool, f func(rc ad.Matrix, a ad.Matrix, b ad.Scalar)) opSpec {
-	return opSpec{name, func(t gen.ElemType, r *prng.Rand) (func(), []*operand, string) {
+	return opSpec{name, func(t gen.ElemType, r *prng.Rand) (func(), []*operand, string, func() any) {
 		rows, cols := r.Range(1, 4), r.Range(1, 4)
 		a, b := genMatOperand("a", t, rows, cols, r, false), genScalarOperand("b", t, r, div)
 		rc := matRecv(t, rows, cols, r)
-		return func() { f(rc, a.Obj.(ad.Matrix), b.Obj.(ad.Scalar)) }, []*operand{a, b}, typeName(rc)
+		return func() { f(rc, a.Obj.(ad.Matrix), b.Obj.(ad.Scalar)) }, []*operand{a, b}, typeName(rc), func() any { return rc }
 	}}
 }
 
 func scBin(name string, div bool, f func(rc ad.Scalar, a, b ad.Scalar)) opSpec {
-	return opSpec{name, func(t gen.ElemType, r *prng.Rand) (func(), []*operand, string) {
+	return opSpec{name, func(t gen.ElemType, r *prng.Rand) (func(), []*operand, string, func() any) {
 		a, b := genScalarOperand("a", t, r, false), genScalarOperand("b", t, r, div)
 		rc := ad.NewScalar(t.T, 0)
-		return func() { f(rc, a.Obj.(ad.Scalar), b.Obj.(ad.Scalar)) }, []*operand{a, b}, typeName(rc)
+		return func() { f(rc, a.Obj.(ad.Scalar), b.Obj.(ad.Scalar)) }, []*operand{a, b}, typeName(rc), func() any { return rc }
 	}}
 }
 
 func scUn(name string, f func(rc ad.Scalar, a ad.Scalar)) opSpec {
-	return opSpec{name, func(t gen.ElemType, r *prng.Rand) (func(), []*operand, string) {
+	return opSpec{name, func(t gen.ElemType, r *prng.Rand) (func(), []*operand, string, func() any) {
 		a := genScalarOperand("a", t, r, false)
 		rc := ad.NewScalar(t.T, 0)
-		return func() { f(rc, a.Obj.(ad.Scalar)) }, []*operand{a}, typeName(rc)
+		return func() { f(rc, a.Obj.(ad.Scalar)) }, []*operand{a}, typeName(rc), func() any { return rc }
 	}}
 }
 
 func scVec(name string, f func(rc ad.Scalar, a ad.Vector)) opSpec {
-	return opSpec{name, func(t gen.ElemType, r *prng.Rand) (func(), []*operand, string) {
+	return opSpec{name, func(t gen.ElemType, r *prng.Rand) (func(), []*operand, string, func() any) {
 		a := genVecOperand("a", t, r.Range(1, 6), r, false)
 		rc := ad.NewScalar(t.T, 0)
-		return func() { f(rc, a.Obj.(ad.Vector)) }, []*operand{a}, typeName(rc)
+		return func() { f(rc, a.Obj.(ad.Vector)) }, []*operand{a}, typeName(rc), func() any { return rc }
 	}}
 }
 
@@ -219,23 +220,23 @@ var opSpecs = []opSpec{
 	vecSc("VsubS", false, func(rc, a ad.Vector, b ad.Scalar) { rc.VsubS(a, b) }),
 	vecSc("VmulS", false, func(rc, a ad.Vector, b ad.Scalar) { rc.VmulS(a, b) }),
 	vecSc("VdivS", true, func(rc, a ad.Vector, b ad.Scalar) { rc.VdivS(a, b) }),
-	{"Vector.Set", func(t gen.ElemType, r *prng.Rand) (func(), []*operand, string) {
+	{"Vector.Set", func(t gen.ElemType, r *prng.Rand) (func(), []*operand, string, func() any) {
 		n := r.Range(1, 6)
 		a := genVecOperand("a", t, n, r, false)
 		rc := vecRecv(t, n, r)
-		return func() { rc.Set(a.Obj.(ad.Vector)) }, []*operand{a}, typeName(rc)
+		return func() { rc.Set(a.Obj.(ad.Vector)) }, []*operand{a}, typeName(rc), func() any { return rc }
 	}},
-	{"MdotV", func(t gen.ElemType, r *prng.Rand) (func(), []*operand, string) {
+	{"MdotV", func(t gen.ElemType, r *prng.Rand) (func(), []*operand, string, func() any) {
 		rows, cols := r.Range(1, 4), r.Range(1, 4)
 		a, b := genMatOperand("a", t, rows, cols, r, false), genVecOperand("b", t, cols, r, false)
 		rc := vecRecv(t, rows, r)
-		return func() { rc.MdotV(a.Obj.(ad.Matrix), b.Obj.(ad.Vector)) }, []*operand{a, b}, typeName(rc)
+		return func() { rc.MdotV(a.Obj.(ad.Matrix), b.Obj.(ad.Vector)) }, []*operand{a, b}, typeName(rc), func() any { return rc }
 	}},
-	{"VdotM", func(t gen.ElemType, r *prng.Rand) (func(), []*operand, string) {
+	{"VdotM", func(t gen.ElemType, r *prng.Rand) (func(), []*operand, string, func() any) {
 		rows, cols := r.Range(1, 4), r.Range(1, 4)
 		a, b := genVecOperand("a", t, rows, r, false), genMatOperand("b", t, rows, cols, r, false)
 		rc := vecRecv(t, cols, r)
-		return func() { rc.VdotM(a.Obj.(ad.Vector), b.Obj.(ad.Matrix)) }, []*operand{a, b}, typeName(rc)
+		return func() { rc.VdotM(a.Obj.(ad.Vector), b.Obj.(ad.Matrix)) }, []*operand{a, b}, typeName(rc), func() any { return rc }
 	}},
 	matBin("MaddM", false, func(rc, a, b ad.Matrix) { rc.MaddM(a, b) }),
 	matBin("MsubM", false, func(rc, a, b ad.Matrix) { rc.MsubM(a, b) }),
@@ -245,23 +246,51 @@ var opSpecs = []opSpec{
 	matSc("MsubS", false, func(rc, a ad.Matrix, b ad.Scalar) { rc.MsubS(a, b) }),
 	matSc("MmulS", false, func(rc, a ad.Matrix, b ad.Scalar) { rc.MmulS(a, b) }),
 	matSc("MdivS", true, func(rc, a ad.Matrix, b ad.Scalar) { rc.MdivS(a, b) }),
-	{"Matrix.Set", func(t gen.ElemType, r *prng.Rand) (func(), []*operand, string) {
+	{"Matrix.Set", func(t gen.ElemType, r *prng.Rand) (func(), []*operand, string, func() any) {
 		rows, cols := r.Range(1, 4), r.Range(1, 4)
 		a := genMatOperand("a", t, rows, cols, r, false)
 		rc := matRecv(t, rows, cols, r)
-		return func() { rc.Set(a.Obj.(ad.Matrix)) }, []*operand{a}, typeName(rc)
+		return func() { rc.Set(a.Obj.(ad.Matrix)) }, []*operand{a}, typeName(rc), func() any { return rc }
 	}},
-	{"MdotM", func(t gen.ElemType, r *prng.Rand) (func(), []*operand, string) {
+	{"MdotM", func(t gen.ElemType, r *prng.Rand) (func(), []*operand, string, func() any) {
 		n, k, m := r.Range(1, 4), r.Range(1, 4), r.Range(1, 4)
 		a, b := genMatOperand("a", t, n, k, r, false), genMatOperand("b", t, k, m, r, false)
 		rc := matRecv(t, n, m, r)
-		return func() { rc.MdotM(a.Obj.(ad.Matrix), b.Obj.(ad.Matrix)) }, []*operand{a, b}, typeName(rc)
+		return func() { rc.MdotM(a.Obj.(ad.Matrix), b.Obj.(ad.Matrix)) }, []*operand{a, b}, typeName(rc), func() any { return rc }
 	}},
-	{"Outer", func(t gen.ElemType, r *prng.Rand) (func(), []*operand, string) {
+	{"Outer", func(t gen.ElemType, r *prng.Rand) (func(), []*operand, string, func() any) {
 		n, m := r.Range(1, 4), r.Range(1, 4)
 		a, b := genVecOperand("a", t, n, r, false), genVecOperand("b", t, m, r, false)
 		rc := matRecv(t, n, m, r)
-		return func() { rc.Outer(a.Obj.(ad.Vector), b.Obj.(ad.Vector)) }, []*operand{a, b}, typeName(rc)
+		return func() { rc.Outer(a.Obj.(ad.Vector), b.Obj.(ad.Vector)) }, []*operand{a, b}, typeName(rc), func() any { return rc }
+	}},
+	{"AppendVector", func(t gen.ElemType, r *prng.Rand) (func(), []*operand, string, func() any) {
+		a, b := genVecOperand("a", t, r.Range(1, 5), r, false), genVecOperand("b", t, r.Range(1, 5), r, false)
+		var res ad.Vector
+		return func() { res = a.Obj.(ad.Vector).AppendVector(b.Obj.(ad.Vector)) }, []*operand{a, b}, typeName(a.Obj), func() any { return res }
+	}},
+	{"AppendScalar", func(t gen.ElemType, r *prng.Rand) (func(), []*operand, string, func() any) {
+		a, b := genVecOperand("a", t, r.Range(1, 5), r, false), genScalarOperand("b", t, r, true)
+		var res ad.Vector
+		return func() { res = a.Obj.(ad.Vector).AppendScalar(b.Obj.(ad.Scalar)) }, []*operand{a, b}, typeName(a.Obj), func() any { return res }
+	}},
+	{"Row/Col/Diag", func(t gen.ElemType, r *prng.Rand) (func(), []*operand, string, func() any) {
+		n := r.Range(1, 4)
+		a := genMatOperand("a", t, n, n, r, true)
+		var res ad.Vector
+		k := r.Intn(3)
+		i := r.Intn(n)
+		return func() {
+			m := a.Obj.(ad.Matrix)
+			switch k {
+			case 0:
+				res = m.Row(i)
+			case 1:
+				res = m.Col(i)
+			default:
+				res = m.Diag()
+			}
+		}, []*operand{a}, typeName(a.Obj), func() any { return res }
 	}},
 	scBin("Add", false, func(rc, a, b ad.Scalar) { rc.Add(a, b) }),
 	scBin("Sub", false, func(rc, a, b ad.Scalar) { rc.Sub(a, b) }),
@@ -280,20 +309,20 @@ var opSpecs = []opSpec{
 	scVec("Vmean", func(rc ad.Scalar, a ad.Vector) { rc.Vmean(a) }),
 	scVec("Vnorm", func(rc ad.Scalar, a ad.Vector) { rc.Vnorm(a) }),
 	scVec("VdotV(a,a)", func(rc ad.Scalar, a ad.Vector) { rc.VdotV(a, a) }),
-	{"Mnorm/Mtrace", func(t gen.ElemType, r *prng.Rand) (func(), []*operand, string) {
+	{"Mnorm/Mtrace", func(t gen.ElemType, r *prng.Rand) (func(), []*operand, string, func() any) {
 		n := r.Range(1, 4)
 		a := genMatOperand("a", t, n, n, r, false)
 		rc := ad.NewScalar(t.T, 0)
-		return func() { rc.Mnorm(a.Obj.(ad.Matrix)); rc.Mtrace(a.Obj.(ad.Matrix)) }, []*operand{a}, typeName(rc)
+		return func() { rc.Mnorm(a.Obj.(ad.Matrix)); rc.Mtrace(a.Obj.(ad.Matrix)) }, []*operand{a}, typeName(rc), func() any { return rc }
 	}},
-	{"Reduce", func(t gen.ElemType, r *prng.Rand) (func(), []*operand, string) {
+	{"Reduce", func(t gen.ElemType, r *prng.Rand) (func(), []*operand, string, func() any) {
 		a := genVecOperand("a", t, r.Range(1, 6), r, false)
 		rc := ad.NewScalar(t.T, 0)
 		return func() {
 			a.Obj.(ad.Vector).Reduce(func(x ad.Scalar, y ad.ConstScalar) ad.Scalar { return x.Add(x, y) }, rc)
-		}, []*operand{a}, typeName(a.Obj)
+		}, []*operand{a}, typeName(a.Obj), nil
 	}},
-	{"Equals/Table/String/MarshalJSON", func(t gen.ElemType, r *prng.Rand) (func(), []*operand, string) {
+	{"Equals/Table/String/MarshalJSON", func(t gen.ElemType, r *prng.Rand) (func(), []*operand, string, func() any) {
 		n := r.Range(1, 4)
 		a, b := genMatOperand("a", t, n, n, r, false), genMatOperand("b", t, n, n, r, false)
 		return func() {
@@ -306,8 +335,34 @@ var opSpecs = []opSpec{
 			am.ConstRow(0)
 			am.ConstCol(0)
 			am.ConstDiag()
-		}, []*operand{a, b}, typeName(a.Obj)
+		}, []*operand{a, b}, typeName(a.Obj), nil
 	}},
+}
+
+// mutateAny applies one seeded mutation to a scalar, vector or matrix and
+// returns the name of the operator ("" when the object cannot be mutated).
+func mutateAny(x any, t gen.ElemType, r *prng.Rand) string {
+	name := ""
+	switch o := x.(type) {
+	case ad.Matrix:
+		if rows, cols := o.Dims(); rows == 0 || cols == 0 {
+			return ""
+		}
+		mu := matMuts[r.Intn(len(matMuts))]
+		name = mu.Name
+		fw.Call(func() { mu.F(o, t, r) })
+	case ad.Vector:
+		if o.Dim() == 0 {
+			return ""
+		}
+		mu := vecMuts[r.Intn(len(vecMuts))]
+		name = mu.Name
+		fw.Call(func() { mu.F(o, t, r) })
+	case ad.Scalar:
+		name = scalarMuts[r.Intn(len(scalarMuts))]
+		fw.Call(func() { mutateScalar(o, t, name, r) })
+	}
+	return name
 }
 
 func opsInputCase(cs *fw.Case) {
@@ -319,7 +374,8 @@ func opsInputCase(cs *fw.Case) {
 	var call func()
 	var ops []*operand
 	var recv string
-	if p := fw.Call(func() { call, ops, recv = spec.Build(t, r) }); p != nil {
+	var result func() any
+	if p := fw.Call(func() { call, ops, recv, result = spec.Build(t, r) }); p != nil {
 		cs.Skip("operand-construction-panics")
 		return
 	}
@@ -331,7 +387,8 @@ func opsInputCase(cs *fw.Case) {
 		}
 	}
 	routine := recv + "." + spec.Name
-	if p := fw.Call(call); p != nil {
+	pc := fw.Call(call)
+	if pc != nil {
 		cs.Cover(monitor + ":call-panics:" + spec.Name)
 	}
 	cs.Cover(monitor + ":" + spec.Name + "/" + t.Name)
@@ -349,4 +406,70 @@ func opsInputCase(cs *fw.Case) {
 			return
 		}
 	}
+	// the result must not share cells with an operand: mutate one side, watch the other
+	if pc != nil || result == nil {
+		return
+	}
+	var res any
+	if p := fw.Call(func() { res = result() }); p != nil || res == nil {
+		return
+	}
+	rt := t
+	w := map[string]any{"routine": routine, "operands": names, "operand_a": clip(ops[0].S0.Str, 300)}
+	if r.Bool() {
+		cs.Cover(monitor + ":independence:mutate-result")
+		for k := r.Range(2, 4); k > 0; k-- {
+			name := mutateAny(res, rt, r)
+			if name == "" {
+				return
+			}
+			for _, o := range ops {
+				if d := o.changed(); d != "" {
+					w["mutation"] = name
+					w["mutated"] = "result"
+					cs.Violation(sig(monitor, routine, "operand="+baseName(o.Name), "result-aliases-operand", "shared-state"),
+						fmt.Sprintf("after %s on the result of the operation, operand %s changed: %s", name, o.Name, d), w)
+					return
+				}
+			}
+		}
+		return
+	}
+	cs.Cover(monitor + ":independence:mutate-operand")
+	r0 := take(res)
+	if r0.Err != "" {
+		return
+	}
+	o := ops[r.Intn(len(ops))]
+	for k := r.Range(2, 4); k > 0; k-- {
+		name := mutateAny(o.Obj, t, r)
+		if name == "" {
+			return
+		}
+		if d := unchanged(r0, take(res)); d != "" {
+			w["mutation"] = name
+			w["mutated"] = "operand " + o.Name
+			cs.Violation(sig(monitor, routine, "operand="+baseName(o.Name), "result-aliases-operand", "shared-state"),
+				fmt.Sprintf("after %s on operand %s, the result of the earlier operation changed: %s", name, o.Name, d), w)
+			return
+		}
+	}
+}
+
+// baseName strips the storage / view descriptor: a(dense,sliced) -> a
+func baseName(n string) string {
+	if k := strings.Index(n, "("); k > 0 {
+		return n[:k]
+	}
+	return n
+}
+
+func mutClassAny(name string) string {
+	switch name {
+	case "SetFloat64", "Add-in-place", "Reset", "Set(other)", "Neg-in-place":
+		return "element-write"
+	case "SetDerivative-in-place", "Alloc":
+		return "derivative-write"
+	}
+	return mutClass(name)
 }
